@@ -557,6 +557,55 @@ def long_product_terms(rng, thorough):
     return out
 
 
+def large_lattice_terms(rng, thorough, Ls=(6, 7, 8)):
+    """(L, terms): few coefficients on larger lattices (the sign string is long here), patterns of length 1, 2, 4"""
+    out = []
+    for L in Ls:
+        for rep in range(3 if thorough else 2):
+            terms = []
+            for k in rng.sample([1, 2, 2, 4], 2):
+                pat = rand_pat(rng, k) if k < 4 else rng.choice([[1, 1, 0, 0], [1, 0, 1, 0], [0, 1, 1, 0]])
+                c = np.zeros((L,) * k, dtype=complex)
+                for _ in range(3):
+                    idx = tuple(rng.choice([0, L - 1, rng.randrange(L), rng.randrange(L)]) for _ in range(k))
+                    c[idx] = rng.choice(VALS)
+                terms.append((pat, c))
+            out.append((L, terms))
+    return out
+
+
+def layout_variants(rng, terms):
+    """the same operator with its coefficient tensors stored differently: Fortran order, a strided view of a larger
+    array, a reversed-and-reversed view, another dtype where the values allow it"""
+    out = []
+    for pat, c in terms:
+        c = np.asarray(c)
+        r = rng.random()
+        if c.ndim == 0:
+            v = c
+        elif r < 0.25:
+            v = np.asfortranarray(c)
+        elif r < 0.6:
+            big = np.zeros(tuple(2 * n for n in c.shape), dtype=c.dtype)
+            big[tuple(slice(None, None, 2) for _ in c.shape)] = c
+            big[tuple(slice(1, None, 2) for _ in c.shape)] = 7       # garbage between the entries
+            v = big[tuple(slice(None, None, 2) for _ in c.shape)]
+        elif r < 0.8:
+            v = np.ascontiguousarray(c[tuple(slice(None, None, -1) for _ in c.shape)])[tuple(slice(None, None, -1) for _ in c.shape)]
+        else:
+            v = np.asarray(c, dtype=complex).T.copy().T
+        out.append((pat, v))
+    return out
+
+
+def oracle_layout(ctx, W, L, terms, rng):
+    d = dict(desc_terms(L, terms), kind="layout")
+    M = dense(W.op(L, terms).as_matrix())
+    M2 = dense(W.op(L, layout_variants(rng, terms)).as_matrix())
+    if not np.array_equal(M, M2):
+        ctx.fail("as_matrix:depends-on-memory-layout-of-the-coefficients", d, "same matrix for equal tensors", "max diff %g" % np.abs(M - M2).max())
+
+
 def oracle_opx(ctx, W, L, terms, check_adjoint=True):
     """as_matrix against the exact rational reference (any coefficient magnitude); returns (matrix, exact?)"""
     d = dict(desc_terms(L, terms), kind="opx")
@@ -687,11 +736,15 @@ def dup_pattern_terms(rng, L):
 def run(ctx):
     import fermi as gen_fermi
     W = World()
-    ctx.trusted.append("C10: the site matrices I,Z,U, the factor-selection rule of clist[i] and alist = clist^dagger are "
-                       "regenerated from FieldOperator.as_matrix (gen/fermi.py); the loop over terms/coefficients "
-                       "(np.nditer C order, skipping zero coefficients, fstring @ clist[j], op += coeff*fstring), "
-                       "FieldOperatorTerm.adjoint/__matmul__, FieldOperator.__add__/__matmul__/adjoint and is_hermitian "
-                       "are hand-modelled (Qib.Fermi.FermiModel) and tied by correspondence; "
+    ctx.trusted.append("C10: regenerated from FieldOperator.as_matrix on every run (gen/fermi.py, fail-closed, every statement of the "
+                       "method whitelisted): the site matrices I,Z,U, the factor-selection rule of clist[i], alist = clist^dagger, AND the "
+                       "accumulation loop statement by statement (for term / for coeff in np.nditer / `if coeff == 0: continue` / "
+                       "fstring = identity / fstring = fstring @ clist[j]|alist[j] by operator type / op += coeff * fstring); theorem "
+                       "C10_code_loop_is_weighted_sum_of_ordered_products is about that text. Assumed: np.nditer(a, multi_index) visits "
+                       "every multi-index once with coeff = a[multi_index]. Hand-modelled (Qib.Fermi.FermiModel) and tied by "
+                       "correspondence: FieldOperatorTerm.adjoint/__matmul__, FieldOperator.__add__/__matmul__/adjoint, is_hermitian "
+                       "(additionally a template tie: their normalised source must be exactly the text the model was written "
+                       "from, every class/method bound once - translator GenFieldOpMethods); "
                        "numpy semantics assumed: coeffs.conj().T reverses all axes, kron+reshape = outer product, "
                        "sparse.kron is associative, scipy.sparse arithmetic = dense arithmetic")
     ctx.assumes.append("coefficients are ring elements (exact arithmetic); np.allclose in is_hermitian is modelled by exact "
@@ -699,10 +752,19 @@ def run(ctx):
     Lmax = 5
     ctx.rules.append("single fermionic field on L<=%d sites; operators with 1-3 terms, patterns of length 0-4 (incl. "
                      "all-create / all-annihilate), coefficient tensors dense / sparse / single-entry / all-zero / int / real, "
-                     "entries dyadic Gaussian rationals; plus cancellation-heavy specials. non-trivial = distinct case "
+                     "entries dyadic Gaussian rationals; plus cancellation-heavy specials. Coefficient magnitudes: scale 2^e for "
+                     "e in -1074 (subnormal) ... 1000 (61 exponents, dense around 1e-8/1e-12/1e-14/1e-16), single-entry and dense "
+                     "tensors, several scales inside one tensor (disjoint and interacting), compared with an exact rational "
+                     "reference (rounding bound 0 for single contributions) and sent to the Coq model when binary64 arithmetic "
+                     "was exact; homogeneity matrix(2^e A) = 2^e matrix(A) and additivity in the tensor; products of 5-8 operators; "
+                     "history/aliasing: A+B, A@B, adjoint(), as_matrix() leave operands unchanged (value snapshots), repeated "
+                     "evaluation identical, operands with repeated patterns. non-trivial = distinct case "
                      "with at least one operator and a non-zero coefficient" % Lmax)
     ctx.lib(["Fermi/FermiCheck", "Fermi/FermiTerms"])
     ok = ctx.translate("GenFieldOp", gen_fermi.generate_fo)
+    # template tie: the small methods the model copies by hand (adjoint, @, +, is_hermitian, IFOType.adjoint, constructors)
+    # have exactly the modelled source; every definition in the module is bound once
+    ctx.translate("GenFieldOpMethods", gen_fermi.generate_fo_methods)
     if ok:
         pok, _ = ctx.props()
         if pok and ctx.thorough:
@@ -790,6 +852,24 @@ def run(ctx):
             add("CMat %s %s %s" % (ct.nat(L), cop(terms), qimat(M)), dict(d, op="as_matrix", scale=tag, e=e), nontrivial(terms))
         elif not exact:
             ctx.count("scaled_rounded(not sent to the model)")
+    for L, terms in large_lattice_terms(rng, ctx.thorough):
+        ctx.count("large_lattice_L=%d" % L)
+        try:
+            oracle_opx(ctx, W, L, terms)
+            R = ref_op_matrix(L, terms)
+            if not np.array_equal(dense(W.op(L, terms).as_matrix()), R):
+                ctx.fail("as_matrix:not-weighted-sum-of-ordered-products", dict(desc_terms(L, terms), kind="op"),
+                         "sum coeff * ordered product of reference ladder matrices (np.kron)", "differs")
+        except Exception as ex:
+            ctx.fail("as_matrix:exception", dict(desc_terms(L, terms), kind="opx"), "matrix", repr(ex))
+    for _ in range(60 if ctx.thorough else 20):
+        L = rng.choice([1, 2, 3, 3, 4])
+        terms = rand_terms(rng, L, kmax=3, budget=100)
+        ctx.count("layout")
+        try:
+            oracle_layout(ctx, W, L, terms, rng)
+        except Exception as ex:
+            ctx.fail("as_matrix:exception", dict(desc_terms(L, terms), kind="layout"), "matrix", repr(ex))
     for L, terms in long_product_terms(rng, ctx.thorough):
         ctx.count("long_products")
         d = dict(desc_terms(L, terms), kind="opx")
@@ -828,6 +908,26 @@ def run(ctx):
         nt = nontrivial(ta) and nontrivial(tb)
         add("CMul %s %s %s %s" % (ct.nat(L), cop(ta), cop(tb), cop(W.terms_of(A @ B))), dict(d, op="matmul"), nt)
         add("CAdd %s %s %s %s" % (ct.nat(L), cop(ta), cop(tb), cop(W.terms_of(A + B))), dict(d, op="add"), nt)
+
+    # high-rank operands (products of rank up to 8) on one or two sites
+    for _ in range(40 if ctx.thorough else 12):
+        L = rng.choice([1, 2, 2])
+        ka, kb = rng.choice([2, 3, 3, 4]), rng.choice([1, 2, 3, 4])
+        if rng.random() < 0.5:
+            ka, kb = kb, ka
+        ta = [(rand_pat(rng, ka), rand_coeffs(rng, L, ka, rng.choice(["dense", "sparse"])))]
+        tb = [(rand_pat(rng, kb), rand_coeffs(rng, L, kb, rng.choice(["dense", "sparse"])))]
+        if rng.random() < 0.3:
+            tb.append((rand_pat(rng, 1), rand_coeffs(rng, L, 1, "dense")))
+        d = {"kind": "pair", "a": desc_terms(L, ta), "b": desc_terms(L, tb)}
+        ctx.count("pair_high_rank")
+        try:
+            A, B = oracle_pair(ctx, W, L, ta, tb)
+        except Exception as e:
+            ctx.fail("pair:exception", d, "sum/product", repr(e))
+            continue
+        add("CMul %s %s %s %s" % (ct.nat(L), cop(ta), cop(tb), cop(W.terms_of(A @ B))), dict(d, op="matmul"), nontrivial(ta) and nontrivial(tb))
+        add("CAdj %s %s %s" % (ct.nat(L), cop(W.terms_of(A @ B)), cop(W.terms_of((A @ B).adjoint()))), dict(d, op="adjoint(A@B)"), True)
 
     # ------------------------------------------------------------ history / aliasing
     for n in range(120 if ctx.thorough else 40):
@@ -909,6 +1009,11 @@ def replay(ctx, data):
     elif kind == "opx":
         L, terms = undesc_terms(inp)
         oracle_opx(ctx, W, L, terms)
+    elif kind == "layout":
+        L, terms = undesc_terms(inp)
+        import random
+        for sd in range(8):
+            oracle_layout(ctx, W, L, terms, random.Random(sd))
     elif kind == "homog":
         L, terms = undesc_terms(inp)
         oracle_homog(ctx, W, L, terms, inp["e"])
